@@ -25,7 +25,9 @@ Init0(P, pidx) ==
    ch |-> [c \in 1..Len(P.chans) |-> [buf |-> <<>>, cap |-> P.chans[c], ntx |-> TxCount(P, c - 1), rx |-> TRUE, closed |-> FALSE,
                                       resv |-> 0]],     \* capacity slots reserved by sends that have not pushed yet,
    os |-> [o \in 1..P.nos |-> [val |-> -1, sent |-> FALSE, taken |-> FALSE, tx |-> TRUE, rx |-> TRUE, closed |-> FALSE]],
-   nt |-> [x \in 1..P.nnt |-> [permit |-> FALSE, waiters |-> {}, woken |-> {}]],
+   nt |-> [x \in 1..P.nnt |-> [permit |-> FALSE, waiters |-> {}, woken |-> {}, one |-> {}]],   \* one: woken by notify_one
+   ab |-> {},           \* tasks whose abort has been requested
+   gone |-> {},         \* aborted tasks whose future has been dropped
    sm |-> [x \in 1..Len(P.sems) |-> [avail |-> P.sems[x], closed |-> FALSE, q |-> <<>>, granted |-> {}]],
    mx |-> [x \in 1..P.nmx |-> [holder |-> -1, q |-> <<>>]],
    \* watch: latest value, version, sender alive, per receiver-owning task the version it has seen (-1 = no receiver)
@@ -115,12 +117,12 @@ Steps(s, t) ==
     \* ---- Notify: at most one stored permit; notify_one wakes one registered waiter, notify_waiters all of them
     [] k = "nt_one" ->
          LET x == s.nt[o] IN
-         IF x.waiters # {} THEN {Done([s EXCEPT !.nt[o].waiters = @ \ {w}, !.nt[o].woken = @ \cup {w}], t, 0) : w \in x.waiters}
+         IF x.waiters # {} THEN {Done([s EXCEPT !.nt[o].waiters = @ \ {w}, !.nt[o].woken = @ \cup {w}, !.nt[o].one = @ \cup {w}], t, 0) : w \in x.waiters}
          ELSE {Done([s EXCEPT !.nt[o].permit = TRUE], t, 0)}
     [] k = "nt_all" ->
          {Done([s EXCEPT !.nt[o].woken = @ \cup s.nt[o].waiters, !.nt[o].waiters = {}], t, 0)}
     [] k = "nt_wait" ->     \* (registration happens at the call, see Register)
-         IF q /\ t \in s.nt[o].woken THEN {Done([s EXCEPT !.nt[o].woken = @ \ {t}], t, 0)} ELSE {}
+         IF q /\ t \in s.nt[o].woken THEN {Done([s EXCEPT !.nt[o].woken = @ \ {t}, !.nt[o].one = @ \ {t}], t, 0)} ELSE {}
     \* ---- Semaphore: FIFO
     [] k = "sm_acq" ->
          LET x == s.sm[o] IN
@@ -185,8 +187,47 @@ Steps(s, t) ==
          ELSE {Done(s, t, 0)}
     [] k = "rw_unlock" ->
          {Done([s EXCEPT !.rl[o] = GrantFront([@ EXCEPT !.avail = @ + s.rheld[t+1][o]]), !.rheld[t+1][o] = 0], t, 0)}
+    [] k = "abort" -> {Done([s EXCEPT !.ab = @ \cup {v}], t, 0)}
     [] k = "yield" -> {Done(s, t, 0)}
     [] OTHER -> {}
+
+(* An aborted task's future is dropped at one of its await points: its pending operation is abandoned (tokio's
+   cancel safety: a queued request leaves the queue, permits already handed over go back, a notification received
+   through notify_one is passed on to another waiter or stored) and everything it holds is released.  The set of
+   possible successor states (the pass-on picks any waiter). *)
+Cancelled(s, t) ==
+  LET op == s.pend[t+1]  o == op.o + 1  q == s.st[t+1] = "queued"
+      \* 1. the pending operation
+      S1 == CASE op.k = "nt_wait" /\ q ->
+                   LET x == s.nt[o]
+                       base == [s EXCEPT !.nt[o].waiters = @ \ {t}, !.nt[o].woken = @ \ {t}, !.nt[o].one = @ \ {t}] IN
+                   IF t \in x.one
+                   THEN (IF base.nt[o].waiters # {}
+                         THEN {[base EXCEPT !.nt[o].waiters = @ \ {w}, !.nt[o].woken = @ \cup {w}, !.nt[o].one = @ \cup {w}] : w \in base.nt[o].waiters}
+                         ELSE {[base EXCEPT !.nt[o].permit = TRUE]})
+                   ELSE {base}
+             [] op.k = "sm_acq" /\ q ->
+                   LET x == s.sm[o] IN
+                   IF t \in x.granted THEN {[s EXCEPT !.sm[o] = GrantFront([x EXCEPT !.granted = @ \ {t}, !.avail = @ + op.v])]}
+                   ELSE {[s EXCEPT !.sm[o] = GrantFront([x EXCEPT !.q = SelectSeq(@, LAMBDA w : w.t # t)])]}
+             [] op.k = "mx_lock" /\ q ->
+                   LET m == s.mx[o] IN
+                   IF m.holder = t THEN {[s EXCEPT !.mx[o] = MxGrant([m EXCEPT !.holder = -1])]}
+                   ELSE {[s EXCEPT !.mx[o].q = SelectSeq(@, LAMBDA w : w # t)]}
+             [] op.k \in {"rw_read", "rw_write"} /\ q ->
+                   LET x == s.rl[o]  need == IF op.k = "rw_read" THEN 1 ELSE MaxReads IN
+                   IF t \in x.granted THEN {[s EXCEPT !.rl[o] = GrantFront([x EXCEPT !.granted = @ \ {t}, !.avail = @ + need])]}
+                   ELSE {[s EXCEPT !.rl[o] = GrantFront([x EXCEPT !.q = SelectSeq(@, LAMBDA w : w.t # t)])]}
+             [] OTHER -> {s}
+      \* 2. what the task holds
+      Rel(s1) == [s1 EXCEPT
+                    !.sm = [x \in DOMAIN s1.sm |-> GrantFront([s1.sm[x] EXCEPT !.avail = @ + s1.held[t+1][x]])],
+                    !.held[t+1] = [x \in DOMAIN s1.sm |-> 0],
+                    !.mx = [x \in DOMAIN s1.mx |-> IF s1.mx[x].holder = t THEN MxGrant([s1.mx[x] EXCEPT !.holder = -1]) ELSE s1.mx[x]],
+                    !.rl = [x \in DOMAIN s1.rl |-> GrantFront([s1.rl[x] EXCEPT !.avail = @ + s1.rheld[t+1][x]])],
+                    !.rheld[t+1] = [x \in DOMAIN s1.rl |-> 0],
+                    !.pend[t+1] = NoOp, !.st[t+1] = "idle", !.fin[t+1] = TRUE]
+  IN {Rel(s1) : s1 \in S1}
 
 \* the part of an operation that takes effect at the call itself
 Register(s, t) ==
